@@ -171,15 +171,23 @@ Proof. exact ExnProofs.clear_active_generated. Qed.
 Print Assumptions exn_repair_in_source.
 
 Theorem exn_macro_shapes :
-  exn_macro_try = expected_macro_try /\ exn_macro_catch = expected_macro_catch /\
-  exn_macro_catch_in = expected_macro_catch_in /\ exn_macro_throw = expected_macro_throw.
-Proof. exact ExnProofs.macro_shapes. Qed.
+  Forall (fun p => fst p = snd p)
+    [(exn_macro_try, expected_macro_try); (exn_macro_catch, expected_macro_catch);
+     (exn_macro_catch_in, expected_macro_catch_in); (exn_macro_throw, expected_macro_throw)].
+Proof. exact (ExnProofs.strings_equal_dec
+    [(exn_macro_try, expected_macro_try); (exn_macro_catch, expected_macro_catch);
+     (exn_macro_catch_in, expected_macro_catch_in); (exn_macro_throw, expected_macro_throw)]). Qed.
 Print Assumptions exn_macro_shapes.
 
 Theorem exn_source_shapes :
-  exn_src_try = expected_src_try /\ exn_src_try_end = expected_src_try_end /\
-  exn_src_try_fail = expected_src_try_fail /\ exn_src_throw = expected_src_throw /\
-  exn_src_catch = expected_src_catch /\ exn_src_buffer = expected_src_buffer /\
-  exn_src_len = expected_src_len.
-Proof. exact ExnProofs.source_shapes. Qed.
+  Forall (fun p => fst p = snd p)
+    [(exn_src_try, expected_src_try); (exn_src_try_end, expected_src_try_end);
+     (exn_src_try_fail, expected_src_try_fail); (exn_src_throw, expected_src_throw);
+     (exn_src_catch, expected_src_catch); (exn_src_buffer, expected_src_buffer);
+     (exn_src_len, expected_src_len); (exn_src_error, expected_src_error)].
+Proof. exact (ExnProofs.strings_equal_dec
+    [(exn_src_try, expected_src_try); (exn_src_try_end, expected_src_try_end);
+     (exn_src_try_fail, expected_src_try_fail); (exn_src_throw, expected_src_throw);
+     (exn_src_catch, expected_src_catch); (exn_src_buffer, expected_src_buffer);
+     (exn_src_len, expected_src_len); (exn_src_error, expected_src_error)]). Qed.
 Print Assumptions exn_source_shapes.
